@@ -134,6 +134,19 @@ CLAIMED = {
              "of the segment it decorates) is a known finding.",
         technique="Lean 4 runner theorem + renderer/parser step theorems on a hand model + correspondence + reference-romaniser search on impl",
         design="§4 C15"),
+    "C19": dict(
+        text="Proved over a model of the three file readers and writers of src/cli (parse_rsca, parse_wsca, parse_alias, to_rsca_format, words.join, to_alias; text as code points, "
+             "`str::lines` and `str::trim` modelled with the Unicode White_Space set): json -> rsca -> json, json -> wsca -> json and json -> alias -> json are the identity for "
+             "every project whose groups are well-formed (trimmed one-line names and rules, rules not starting with @ or #, description lines trimmed and not beginning with an "
+             "empty line, no entirely empty group before another, at least one group, last word not empty, alias lines not starting with # / @into / @from). The four excluded "
+             "points are proved to FAIL the round trip in the model (examples by `decide`) and are documented as limits of the format. PARTIAL: that `asca run` prints and "
+             "writes what the library returns is wiring around asca::run (file reading, -j/-r/-w/-l/-o options, error printing) with no logic to prove; it is decided by "
+             "running the real binary on generated projects.",
+        note="Trusted: Lean kernel, standard axioms; cli-files correspondence (the asca binary built from the working tree vs the model readers/writers on the same bytes, ~1500 "
+             "files per quick run); the project generator (its idea of what a noisy file denotes follows doc/doc-cli.md). Defect D19a (conv json wrote rules to the alias path "
+             "and aliases to the rule path) repaired by a fix: commit.",
+        technique="Lean 4 round-trip theorems on a hand model of the file formats + byte-level correspondence with the real binary + end-to-end runs of the binary against the library",
+        design="§4 C19"),
     "C14": dict(
         text="Proved over the port of syll.rs, for any run length, position and syllable: a matrix naming no length/stress/tone leaves the syllable's stress, tone and segment count unchanged and reports no length change, and touches no segment outside the run; apply_syll_mods (stress/tone setting) never touches a segment; joining and splitting syllables keep every segment in order. PARTIAL: the whole-rule statements with arbitrary environments are decided by c14-spec and the correspondence.",
         note='Trusted: Lean kernel, standard axioms (+ bv_decide certificates where the bit layer is used); the hand port of subrule.rs/rule.rs/syll.rs (Model/Interp), tied to the code on every run by the interp-ops correspondence (identical outcome class and word on ~27k generated cases quick / 400k thorough, release profile); generators and labels of the search.',
